@@ -16,7 +16,9 @@
 (*     every mutable capture = 2*capture + a1 + S + H(a1)                  *)
 (*     r1 = rec(a1-1, a3, .., an, a2)            (tail arguments rotated)  *)
 (*     r2 = if a1 even { rec(a1-2, a2, .., an) } else { 0 }                *)
-(*     return r1 + 3*r2 + a1 * (first shared capture, or 1) + H(a1)        *)
+(*     r3 = rec(0, a2, .., rec(0, a2, .., an))   (with a return type and   *)
+(*          at least two arguments: a call nested in a call's argument)    *)
+(*     return r1 + 3*r2 + a1 * (first shared capture, or 1) + H(a1) + r3   *)
 (*   where H(x) = x mod 3 is a free helper function; in the generated      *)
 (*   programs it carries the very name of the recursion macro (functions   *)
 (*   and macros live in different namespaces, so the body must reach it).  *)
@@ -60,7 +62,12 @@ Run(sh, caps, args) ==
        ELSE LET c1 == [i \in 1 .. Len(caps) |-> IF sh.caps[i] = "mut" THEN 2 * caps[i] + a1 + S + Helper(a1) ELSE caps[i]]
                 r1 == Run(sh, c1, Rotate([args EXCEPT ![1] = a1 - 1]))
                 r2 == IF a1 % 2 = 0 THEN Run(sh, r1.caps, [args EXCEPT ![1] = a1 - 2]) ELSE [ret |-> 0, caps |-> r1.caps]
-            IN [ret |-> r1.ret + 3 * r2.ret + a1 * FirstShared(sh, caps) + Helper(a1), caps |-> r2.caps]
+                \* with a return type and at least two arguments: r3 = rec(0, a2, .., rec(0, a2, .., an)) -- a recursive call
+                \* whose last argument is itself a recursive call (both reach the base case at once)
+                nested == sh.ret /\ Len(args) >= 2
+                inner == IF nested THEN Run(sh, r2.caps, [args EXCEPT ![1] = 0]) ELSE [ret |-> 0, caps |-> r2.caps]
+                outer == IF nested THEN Run(sh, inner.caps, [args EXCEPT ![1] = 0, ![Len(args)] = inner.ret]) ELSE [ret |-> 0, caps |-> r2.caps]
+            IN [ret |-> r1.ret + 3 * r2.ret + a1 * FirstShared(sh, caps) + Helper(a1) + outer.ret, caps |-> outer.caps]
 
 InitCaps(sh) == [i \in 1 .. Len(sh.caps) |-> i + 2]
 Inputs(sh) == {[j \in 1 .. sh.nargs |-> IF j = 1 THEN a ELSE 4 + j] : a \in {0, 3, 4}}
